@@ -36,16 +36,20 @@ type c10bracket struct {
 	parent    int
 	armed     bool
 	skipArmed bool
+	// >= 0: the call was made by a cleanup function of that bracket (a nested invocation during its cleanup phase)
+	inCleanupOf int
 }
 
 type c10rec struct {
-	events   []c10ev
-	brackets []*c10bracket
-	open     []int // stack of brackets whose body is running
+	inCleanupGen *rapid.Generator[int]
+	cleanupOf    int // 1 + id of the bracket one of whose cleanup functions is drawing right now (0: none)
+	events       []c10ev
+	brackets     []*c10bracket
+	open         []int // stack of brackets whose body is running
 }
 
 func (r *c10rec) begin(level, phase string) *c10bracket {
-	b := &c10bracket{id: len(r.brackets), level: level, phase: phase, parent: -1}
+	b := &c10bracket{id: len(r.brackets), level: level, phase: phase, parent: -1, inCleanupOf: r.cleanupOf - 1}
 	if len(r.open) > 0 {
 		b.parent = r.open[len(r.open)-1]
 	}
@@ -86,6 +90,8 @@ const (
 	c10Ctx
 	c10Fatalf
 	c10Skip
+	c10Nil  // t.Cleanup(nil): nothing to run, and nothing registered before it may get lost
+	c10Draw // the cleanup function draws from a Custom generator: that call is an invocation like any other (live context)
 	nC10Kinds
 )
 
@@ -95,6 +101,10 @@ func (r *c10rec) register(b *c10bracket, t *rapid.T, kind int, depth int) {
 	}
 	if kind == c10Skip && !b.skipArmed {
 		kind = c10None // skipping cleanups in about one case in eight
+	}
+	if kind == c10Nil {
+		t.Cleanup(nil)
+		return
 	}
 	id := b.nextID
 	b.nextID++
@@ -121,6 +131,22 @@ func (r *c10rec) register(b *c10bracket, t *rapid.T, kind int, depth int) {
 			t.Fatalf("cleanup %d fatalf", id)
 		case c10Skip:
 			t.Skip("cleanup skips")
+		case c10Draw:
+			if r.inCleanupGen == nil {
+				r.inCleanupGen = rapid.Custom(func(it *rapid.T) int {
+					cb := r.begin("custom", "")
+					defer r.bodyEnd(cb, "custom drawn in a cleanup")
+					r.ctx(cb, it, "start of custom fn")
+					r.register(cb, it, c10None, 0)
+					return rapid.IntRange(0, 9).Draw(it, "in-cleanup")
+				})
+			}
+			func() {
+				prev := r.cleanupOf
+				r.cleanupOf = b.id + 1
+				defer func() { r.cleanupOf = prev }()
+				r.inCleanupGen.Draw(t, "drawn by a cleanup")
+			}()
 		case c10Ctx:
 			c := t.Context() // asked for during cleanup: must be born cancelled
 			r.events = append(r.events, c10ev{br: b.id, kind: "ctx", live: c.Err() == nil, note: "obtained in cleanup"})
@@ -148,6 +174,9 @@ func judgeBrackets(r *c10rec) (string, int) {
 		case "begin":
 			// whatever ended earlier must be completely cleaned up before anything new begins
 			for id := range dirty {
+				if id == b.inCleanupOf {
+					continue // the call is made BY a cleanup function of that bracket: its remaining cleanups run afterwards
+				}
 				if ps := states[id]; true {
 					return fmt.Sprintf("a new %s call began while %s bracket %d (%s) still had registered cleanups %v that did not run",
 						b.level, r.brackets[id].level, id, r.brackets[id].phase, ps.stack), i
@@ -245,7 +274,7 @@ func c10Custom(rec *c10rec, r *rng, endings ...string) *rapid.Generator[any] {
 	nclean := r.intn(4)
 	kinds := make([]int, nclean)
 	for i := range kinds {
-		kinds[i] = pick(r, []int{c10None, c10None, c10Panic, c10More, c10Ctx, c10Errorf})
+		kinds[i] = pick(r, []int{c10None, c10None, c10Panic, c10More, c10Ctx, c10Errorf, c10Nil})
 	}
 	if len(endings) == 0 {
 		endings = []string{"return", "return", "return", "Skip", "Errorf", "Fatalf", "panic"}
